@@ -20,7 +20,7 @@ func init() {
 		Patterns: []string{"./..."},
 		NeedSSA:  true,
 		Explanation: "Decides that no 'unhandled kind' panic is reachable for the closed kinds the code switches on: every type switch with a panicking default (42 today, outside vendored x/tools code) is decided against (a) the full universe of implementors of its interface — all IR instructions that go/ir constructs, all go/ast statement/expression/declaration kinds, all go/types types — with per-(site,type) exemptions, (b) the node-type filter of the inspector traversal that feeds it, or (c) a frozen, individually justified case set where the universe follows from the Go grammar or a guard (loss of a case only) (R3.1); " +
-			"switches over builtin names are decided against the builtins from go/types' universe that are lowered to calls with pointer-like results plus the IR builder's synthetic builtins (R3.2); unchecked type assertions on the node delivered to an inspector callback must name the only type of its filter (R3.3); the type checker's Go version on the default path is never a constant lower than what the compiler accepted (R3.4). " +
+			"switches over builtin names are decided against the builtins from go/types' universe that are lowered to calls with pointer-like results plus the IR builder's synthetic builtins (R3.2); unchecked type assertions on the node delivered to an inspector callback must name the only type of its filter (R3.3); the type checker's Go version on the default path is never a constant lower than what the compiler accepted (R3.4); no analyzer's Run returns a non-nil error except the config analyzer for a broken staticcheck.conf (R3.5). " +
 			"It does NOT decide arbitrary panics (index/nil faults, unchecked assertions elsewhere), analyzer error returns, or termination.",
 		RuleText:    "obligation = (switch site, type/builtin/filter element); universes computed from go/types (implementors), from the inspector call's typed-nil arguments, from types.Universe/types.Unsafe; tables/c03_switches.tsv holds one reviewed line per site or exemption",
 		Assumptions: []string{"a package that reaches analysis parses and type-checks (no Bad* nodes)", "the Go grammar and go/types invariants quoted in tables/c03_switches.tsv"},
@@ -44,6 +44,8 @@ func init() {
 				Old: "\t\t\t\tcase \"recover\":\n\t\t\t\t\t// recover returns nil unless the goroutine is panicking\n\t\t\t\t\t// and we're being called from a deferred function.\n\t\t\t\t\ts.set(v, ValueNilness{MaybeNil, MaybeNil})\n", New: ""},
 			{Name: "assert-in-two-type-filter", File: "staticcheck/sa4011/sa4011.go", Rule: "R3.3", KeyPart: "sa4011",
 				Old: "\t\tvar body *ast.BlockStmt\n\t\tswitch node := node.(type) {", New: "\t\tvar body *ast.BlockStmt\n\t\t_ = node.(*ast.ForStmt).Cond\n\t\tswitch node := node.(type) {"},
+			{Name: "check-returns-internal-error", File: "stylecheck/st1003/st1003.go", Rule: "R3.5", KeyPart: "st1003",
+				Old: "\tinitialisms := make(map[string]bool, len(il))", New: "\tif len(il) > 1000 {\n\t\treturn nil, fmt.Errorf(\"too many initialisms\")\n\t}\n\tinitialisms := make(map[string]bool, len(il))"},
 			{Name: "loader-pins-go-version", File: "go/loader/loader.go", Rule: "R3.4", KeyPart: "types.Config.GoVersion",
 				Old: "\t\t\ttags := build.Default.ReleaseTags\n\t\t\ttc.GoVersion = tags[len(tags)-1]\n", New: "\t\t\t_ = build.Default\n\t\t\ttc.GoVersion = \"go1.21\"\n"},
 		},
@@ -789,6 +791,40 @@ func runC03(c *Ctx) {
 		})
 		if n < 2 {
 			c.Undecided("loadFromSource no longer sets types.Config.GoVersion on both paths")
+		}
+	})
+
+	c.Rule("R3.5", func() {
+		c.Floor("R3.5", 100)
+		// analyzers whose Run may return a non-nil error (which marks the package failed)
+		allowedErr := map[string]string{
+			Module + "/config.init$1": "the config analyzer reports an unreadable or malformed staticcheck.conf — a configuration problem of the user's tree, not an internal error",
+		}
+		runs := analyzerRunFuncs(c)
+		if len(runs) < 100 {
+			c.Undecided("found only %d analyzer Run functions", len(runs))
+		}
+		for _, fn := range runs {
+			c.SawFunc(fn.String())
+			bad := ""
+			var badPos = fn.Pos()
+			for _, r := range Returns(fn) {
+				if len(r.Results) < 2 {
+					continue
+				}
+				v := ReturnOperand(r, 1)
+				if v == nil || IsNilConst(v) {
+					continue
+				}
+				bad, badPos = "returns a possibly non-nil error", r.Pos()
+			}
+			if bad != "" {
+				if why, ok := allowedErr[fn.String()]; ok {
+					c.CheckTrivial(strings.TrimPrefix(fn.String(), Module+"/")+"::Run-returns-no-internal-error", badPos, true, "listed: %s", why)
+					continue
+				}
+			}
+			c.Check(strings.TrimPrefix(fn.String(), Module+"/")+"::Run-returns-no-internal-error", badPos, bad == "", "an analyzer's Run must return a nil error on code that compiles: a non-nil error marks the whole package failed (%s)", bad)
 		}
 	})
 }
